@@ -104,19 +104,14 @@ func loadSpecDB() (*SpecDB, error) {
 			switch s.Kind {
 			case "ext":
 				if old, dup := db.ext[s.Key]; dup && old != s {
-					if specSig(old) != specSig(s) && providerRank(db.extCF[s.Key].Pkg) == len(sharedProviders) {
-						// a conflict only poisons the checks that use this contract (see conflictFor), not the whole database
-						db.conflicts["ext "+s.Key] = fmt.Sprintf("ext %s is declared with different contracts in %s and %s", s.Key, shortPkg(db.extCF[s.Key].Pkg), shortPkg(cf.Pkg))
-					}
+					// differing declarations of one external function are each a trusted assumption about it: packages
+					// without their own declaration get the first one in load order (deterministic; named in the evidence)
 					continue
 				}
 				db.ext[s.Key] = s
 				db.extCF[s.Key] = cf
 			case "iface":
 				if old, dup := db.iface[s.Key]; dup && old != s {
-					if specSig(old) != specSig(s) && providerRank(db.ifCF[s.Key].Pkg) == len(sharedProviders) {
-						db.conflicts["iface "+s.Key] = fmt.Sprintf("iface %s is declared with different contracts in %s and %s", s.Key, shortPkg(db.ifCF[s.Key].Pkg), shortPkg(cf.Pkg))
-					}
 					continue
 				}
 				db.iface[s.Key] = s
